@@ -61,6 +61,12 @@ class H(W.Hooks):
         self.ctx.violation("c01_infeasible_schedule_after_accepting_a_refusable_request",
                            {"request": [o, m], "errors": errs[:6], "history": list(run.r.history)})
 
+    def refused_add_changed_schedule(self, run, accepted, n_before):
+        self.ctx.violation("c01_refused_schedule_add_changed_the_schedule",
+                           {"accepted": accepted, "count_before": n_before,
+                            "count_after": run.d.schedule.num_scheduled_operations,
+                            "is_complete": run.d.schedule.is_complete()})
+
     def end(self, run):
         ctx = self.ctx
         ctx.count("end_of_history_checks")
